@@ -1,8 +1,697 @@
-//! C07 — see /verif/DESIGN.md §3.
-use vf_core::{Args, Ctx};
+//! C07 — compilation is deterministic across threads, runs and unrelated
+//! prior work (see /verif/DESIGN.md §3 "C07").
+//!
+//! Oracle: byte equality against a reference compiled once, single-threaded,
+//! at the start of the process (object ids starting at 0), and equality of
+//! the per-input digests across all processes of the run (the shards: every
+//! shard compiles the same canonical inputs; `<out dir>/C07.digests.*` files
+//! are compared by every shard when it finishes).
+//!
+//! Schedules: repetition; histories of k unrelated compilations; object-id
+//! counter jumps (hook `bump_object_counter`) between compilations, so that a
+//! compilation straddles multiples of 2^16/2^24/2^31/2^32/.../2^56 and 2^63;
+//! 16 threads released from a barrier compiling the same / mixed values with
+//! seeded yields, with and without a sidecar thread that jumps the counter
+//! *during* the compilations.
+mod inputs;
 
-pub const REPLAY: Option<fn(&mut Ctx, &Args, &serde_json::Value, Option<&[u8]>)> = None;
+use inputs::Input;
+use serde_json::{json, Value};
+use std::collections::BTreeMap;
+use std::path::{Path, PathBuf};
+use std::sync::atomic::{AtomicBool, AtomicU64, Ordering};
+use std::sync::{Arc, Barrier};
+use vf_core::{fnv64, Args, Ctx, Digest, PanicInfo, PanicPolicy, Rng};
+use write_fonts::verif_graph_hooks as hooks;
 
-pub fn run(ctx: &mut Ctx, _args: &Args) {
-    ctx.rule = "stub".into();
+pub const REPLAY: Option<fn(&mut Ctx, &Args, &Value, Option<&[u8]>)> = None;
+
+const N_THREADS: usize = 16;
+
+// ------------------------------------------------------------ one compilation
+
+enum Out {
+    Bytes(Vec<u8>),
+    Err(String),
+    Panic(PanicInfo),
+}
+
+struct Run {
+    out: Out,
+    start: u64,
+    end: u64,
+    trace: String,
+}
+
+fn compress_trace(t: &[&'static str]) -> String {
+    let mut s = String::new();
+    let mut i = 0;
+    while i < t.len() {
+        let mut j = i;
+        while j < t.len() && t[j] == t[i] {
+            j += 1;
+        }
+        if !s.is_empty() {
+            s.push('>');
+        }
+        s.push_str(t[i]);
+        if j - i > 1 {
+            // bucket repeat counts so that the label set stays small
+            let n = j - i;
+            let b = if n < 4 { n.to_string() } else if n < 16 { "4+".into() } else if n < 256 { "16+".into() } else { "256+".into() };
+            s.push_str(&format!("*{}", b));
+        }
+        i = j;
+    }
+    s
+}
+
+fn compile(inp: &Input) -> Run {
+    let _ = hooks::take_trace();
+    let start = hooks::object_counter();
+    let r = vf_core::guard(|| (inp.make)());
+    let end = hooks::object_counter();
+    let trace = compress_trace(&hooks::take_trace());
+    let out = match r {
+        Ok(Ok(b)) => Out::Bytes(b),
+        Ok(Err(e)) => Out::Err(e),
+        Err(p) => Out::Panic(p),
+    };
+    Run {
+        out,
+        start,
+        end,
+        trace,
+    }
+}
+
+struct Ref {
+    bytes: Arc<Vec<u8>>,
+    digest: u64,
+    objects: u64,
+    trace: String,
+    nontrivial: bool,
+}
+
+fn beyond_kahn(trace: &str) -> bool {
+    trace.split('>').any(|s| !s.is_empty() && !s.starts_with("kahn"))
+}
+
+// ------------------------------------------------------------ checker
+
+struct Checker {
+    refs: Vec<Option<Ref>>,
+    reported: BTreeMap<String, u32>,
+}
+
+impl Checker {
+    /// Compare one observed run against the reference of input `i`.
+    fn check(&mut self, ctx: &mut Ctx, inputs: &[Input], i: usize, run: &Run, schedule: &str, instance: u64) {
+        let inp = &inputs[i];
+        let Some(r) = &self.refs[i] else { return };
+        ctx.eval();
+        ctx.count("compilations_checked", 1);
+        ctx.count(&format!("schedule:{}", schedule), 1);
+        if r.nontrivial {
+            let mut d = Digest::new();
+            d.str(&inp.name);
+            d.str(schedule);
+            d.u64(instance);
+            d.u64(run.start);
+            ctx.nontrivial(d.finish());
+        }
+        if run.end.wrapping_sub(run.start) > r.objects {
+            ctx.count("compilations_with_foreign_ids_inside_their_id_range", 1);
+        }
+        if run.trace != r.trace {
+            ctx.count("stage_trace_differs_from_reference", 1);
+            ctx.label("stage_trace_differences", &format!("{}: {} vs {}", inp.name, r.trace, run.trace));
+        }
+        let (kind, detail): (&str, Value) = match &run.out {
+            Out::Bytes(b) => {
+                let dg = fnv64(b);
+                ctx.distinct(&format!("output:{}", inp.name), dg);
+                if b.len() == r.bytes.len() && dg == r.digest && **b == **r.bytes {
+                    return;
+                }
+                let at = b.iter().zip(r.bytes.iter()).position(|(x, y)| x != y);
+                (
+                    "nondeterministic-output",
+                    json!({"reference_len": r.bytes.len(), "len": b.len(), "first_diff": at,
+                           "reference_digest": format!("{:016x}", r.digest), "digest": format!("{:016x}", dg)}),
+                )
+            }
+            Out::Err(e) => ("nondeterministic-error", json!({"error": e})),
+            Out::Panic(p) => {
+                if !p.in_repo() {
+                    ctx.inconclusive(format!("harness panic {}:{} {}", p.file, p.line, p.msg));
+                    return;
+                }
+                ("nondeterministic-panic", json!({"panic": {"file": p.file, "line": p.line, "msg": p.msg}}))
+            }
+        };
+        let sig = format!("{}:{}:{}", kind, inp.name, schedule);
+        let c = self.reported.entry(format!("{}:{}", kind, inp.name)).or_insert(0);
+        *c += 1;
+        ctx.count(&format!("mismatch:{}", kind), 1);
+        if *c > 3 {
+            return;
+        }
+        let bytes: Option<&[u8]> = match &run.out {
+            Out::Bytes(b) => Some(&b[..]),
+            _ => None,
+        };
+        ctx.violation(
+            &sig,
+            json!({"input": inp.name, "schedule": schedule, "instance": instance, "id_range": [run.start, run.end],
+                   "reference_objects": r.objects, "trace": run.trace, "reference_trace": r.trace, "what": detail}),
+            bytes,
+        );
+    }
+}
+
+// ------------------------------------------------------------ counter jumps
+
+/// Move the object counter so that the next compilation (which allocates
+/// about `objects` ids) straddles the next multiple of 2^bits.
+fn jump_before_boundary(bits: u32, objects: u64, rng: &mut Rng) -> u64 {
+    let cur = hooks::object_counter();
+    let unit = 1u64 << bits;
+    let back = 1 + rng.below(objects.max(2) - 1); // 1..objects-1 ids before the boundary
+    let mut next = (cur / unit + 1) * unit;
+    if next - cur < back {
+        next += unit;
+    }
+    hooks::bump_object_counter(next - back - cur);
+    next
+}
+
+fn random_jump(rng: &mut Rng, max_bits: u32) -> u64 {
+    let n = match rng.below(6) {
+        0 => 1,
+        1 => 2 + rng.below(3),
+        2 => rng.below(1000) | 1,
+        3 => 1u64 << rng.below(max_bits as u64),
+        4 => (1u64 << (1 + rng.below(max_bits as u64 - 1))) - 1,
+        _ => rng.below(1u64 << max_bits),
+    };
+    hooks::bump_object_counter(n);
+    n
+}
+
+// ------------------------------------------------------------ threads
+
+struct ThreadPlan {
+    input: usize,
+    yields: u32,
+    reps: u32,
+}
+
+/// One round: N threads released from a barrier; optionally a sidecar that
+/// jumps the id counter while they compile. Returns the runs per thread.
+fn thread_round(inputs: &[Input], plans: &[ThreadPlan], sidecar: Option<u64>, sidecar_bumps: &AtomicU64) -> Vec<Vec<Run>> {
+    let n = plans.len();
+    let barrier = Barrier::new(n + sidecar.is_some() as usize);
+    let stop = AtomicBool::new(false);
+    let mut results: Vec<Vec<Run>> = Vec::new();
+    std::thread::scope(|s| {
+        let mut handles = vec![];
+        for p in plans {
+            let barrier = &barrier;
+            handles.push(s.spawn(move || {
+                barrier.wait();
+                let mut runs = vec![];
+                for rep in 0..p.reps {
+                    for _ in 0..(p.yields + rep) {
+                        std::thread::yield_now();
+                    }
+                    runs.push(compile(&inputs[p.input]));
+                }
+                runs
+            }));
+        }
+        let side = sidecar.map(|sseed| {
+            let barrier = &barrier;
+            let stop = &stop;
+            s.spawn(move || {
+                let mut rng = Rng::new(sseed);
+                barrier.wait();
+                let mut n = 0u64;
+                // at most 2^16 jumps of < 2^34 per round: < 2^50 in total
+                while !stop.load(Ordering::Relaxed) && n < 65536 {
+                    random_jump(&mut rng, 34);
+                    n += 1;
+                    for _ in 0..rng.below(4) {
+                        std::thread::yield_now();
+                    }
+                    if rng.chance(1, 8) {
+                        std::thread::sleep(std::time::Duration::from_micros(rng.below(200)));
+                    }
+                }
+                sidecar_bumps.fetch_add(n, Ordering::Relaxed);
+            })
+        });
+        for h in handles {
+            match h.join() {
+                Ok(r) => results.push(r),
+                Err(_) => results.push(vec![]),
+            }
+        }
+        stop.store(true, Ordering::Relaxed);
+        if let Some(h) = side {
+            let _ = h.join();
+        }
+    });
+    results
+}
+
+// ------------------------------------------------------------ cross-process digests
+
+fn digest_file(dir: &Path, profile: &str, shard: usize) -> PathBuf {
+    dir.join(format!("C07.digests.{}.{}", profile, shard))
+}
+
+fn write_and_compare_digests(ctx: &mut Ctx, args: &Args, lines: &BTreeMap<String, String>) {
+    let Some(dir) = args.out.parent().map(|p| p.to_path_buf()) else { return };
+    let header = format!("C07 seed={} tier={}", ctx.seed, ctx.tier.as_str());
+    let mut s = header.clone();
+    s.push('\n');
+    for (k, v) in lines {
+        s.push_str(k);
+        s.push('\t');
+        s.push_str(v);
+        s.push('\n');
+    }
+    let mine = digest_file(&dir, &ctx.profile, ctx.shard.0);
+    let tmp = mine.with_extension(format!("tmp{}", std::process::id()));
+    if std::fs::write(&tmp, s).is_err() || std::fs::rename(&tmp, &mine).is_err() {
+        ctx.inconclusive("cannot write the digest side file");
+        return;
+    }
+    // compare with every digest file of the same run already present
+    let Ok(rd) = std::fs::read_dir(&dir) else { return };
+    let mut names: Vec<PathBuf> = rd.flatten().map(|e| e.path()).collect();
+    names.sort();
+    let mut same_profile = 0u64;
+    let mut other_profile = 0u64;
+    for p in names {
+        let Some(fname) = p.file_name().and_then(|f| f.to_str()) else { continue };
+        if !fname.starts_with("C07.digests.") || p == mine || fname.contains(".tmp") {
+            continue;
+        }
+        let Ok(text) = std::fs::read_to_string(&p) else { continue };
+        let mut it = text.lines();
+        if it.next() != Some(header.as_str()) {
+            // stale file of another seed / tier: remove it if it is old
+            let old = std::fs::metadata(&p)
+                .and_then(|m| m.modified())
+                .ok()
+                .and_then(|t| t.elapsed().ok())
+                .map(|e| e.as_secs() > 1800)
+                .unwrap_or(false);
+            if old {
+                let _ = std::fs::remove_file(&p);
+            }
+            continue;
+        }
+        let fresh = std::fs::metadata(&p)
+            .and_then(|m| m.modified())
+            .ok()
+            .and_then(|t| t.elapsed().ok())
+            .map(|e| e.as_secs() < 3 * 3600)
+            .unwrap_or(false);
+        if !fresh {
+            let _ = std::fs::remove_file(&p);
+            continue;
+        }
+        let their_profile = fname.split('.').nth(2).unwrap_or("?").to_string();
+        let cross = their_profile != ctx.profile;
+        if cross {
+            other_profile += 1;
+        } else {
+            same_profile += 1;
+        }
+        for l in it {
+            let Some((name, val)) = l.split_once('\t') else { continue };
+            let Some(my) = lines.get(name) else { continue };
+            ctx.count("cross_process_comparisons", 1);
+            if my != val {
+                if cross {
+                    // a different build of the library is a different program:
+                    // recorded, not judged by this property
+                    ctx.count("differs_between_build_profiles", 1);
+                    ctx.label("differs_between_build_profiles", name);
+                } else {
+                    let sig = format!("nondeterministic-across-processes:{}", name);
+                    ctx.violation(&sig, json!({"input": name, "this_process": my, "other_process": val, "other_file": fname}), None);
+                }
+            }
+        }
+    }
+    ctx.count("digest_files_compared_same_profile", same_profile);
+    ctx.count("digest_files_compared_other_profile", other_profile);
+}
+
+// ------------------------------------------------------------ run
+
+pub fn run(ctx: &mut Ctx, args: &Args) {
+    ctx.policy = PanicPolicy::Any;
+    ctx.rule = "a checked compilation (input x schedule instance) whose input feeds >= 50 entries into a hashed collection \
+                (measured: object ids allocated by the reference compilation = object-store entries; declared: regions / \
+                delta sets / tuples / classes / retained glyphs) or whose packing enters a stage beyond the Kahn sort \
+                (measured with the stage-trace hook). Digest = input name, schedule kind, instance, first object id."
+        .into();
+    ctx.assumptions = vec![
+        "the object-id counter never wraps 2^64 (jumps are bounded; only relative order inside one compilation is specified)".into(),
+        "inputs whose reference compilation fails or panics are outside this property and only compared across processes".into(),
+        "outputs of differently configured builds (strict / rel) are recorded but not required to be equal".into(),
+    ];
+    let thorough = ctx.tier.is_thorough();
+    let inputs = inputs::canonical_inputs(ctx.seed, thorough);
+    let fillers = inputs::filler_inputs(ctx.seed);
+    let mut rng = Rng::derive(ctx.seed, "c07-schedule", ctx.shard.0 as u64 * 2 + ctx.is_strict() as u64);
+    ctx.count("processes", 1);
+
+    // ---------------- phase 0: reference, single-threaded, ids from 0
+    let mut phase_t: Vec<(String, f64)> = vec![];
+    let first_id = hooks::object_counter();
+    ctx.extra.insert("first_object_id_of_process".into(), json!(first_id));
+    let mut chk = Checker {
+        refs: vec![],
+        reported: BTreeMap::new(),
+    };
+    let mut digest_lines: BTreeMap<String, String> = BTreeMap::new();
+    let mut input_table = vec![];
+    for inp in &inputs {
+        let label = || format!("reference {}", inp.name);
+        let t_ref = std::time::Instant::now();
+        let run = match ctx.run_case(&label, None, &|| compile(inp)) {
+            Ok(r) => r,
+            Err(p) => {
+                ctx.inconclusive(format!("harness panic in reference of {}: {}:{}", inp.name, p.file, p.line));
+                chk.refs.push(None);
+                continue;
+            }
+        };
+        ctx.eval();
+        ctx.count("reference_compilations", 1);
+        match run.out {
+            Out::Bytes(b) => {
+                let objects = run.end - run.start;
+                let digest = fnv64(&b);
+                let nontrivial = objects >= 50 || inp.declared_hashed >= 50 || beyond_kahn(&run.trace);
+                ctx.distinct(&format!("output:{}", inp.name), digest);
+                ctx.label(&format!("stage_traces:{}", inp.kind), &run.trace);
+                ctx.label("stage_traces_all", &run.trace);
+                ctx.count(&format!("inputs:{}", inp.kind), 1);
+                if nontrivial {
+                    ctx.count("inputs_nontrivial", 1);
+                }
+                if beyond_kahn(&run.trace) {
+                    ctx.count("inputs_beyond_kahn", 1);
+                }
+                digest_lines.insert(inp.name.clone(), format!("{:016x}:{}", digest, b.len()));
+                input_table.push(json!({"name": inp.name, "kind": inp.kind, "output_len": b.len(), "objects": objects,
+                                        "declared_hashed": inp.declared_hashed, "trace": run.trace, "nontrivial": nontrivial,
+                                        "reference_ms": (t_ref.elapsed().as_secs_f64() * 1000.0).round()}));
+                chk.refs.push(Some(Ref {
+                    bytes: Arc::new(b),
+                    digest,
+                    objects,
+                    trace: run.trace,
+                    nontrivial,
+                }));
+            }
+            Out::Err(e) => {
+                ctx.count("reference_unusable:error", 1);
+                ctx.label("reference_unusable", &format!("{}: {}", inp.name, e.chars().take(80).collect::<String>()));
+                digest_lines.insert(inp.name.clone(), format!("ERR:{:016x}", fnv64(e.as_bytes())));
+                chk.refs.push(None);
+            }
+            Out::Panic(p) => {
+                ctx.count("reference_unusable:panic", 1);
+                ctx.label("reference_unusable", &format!("{}: {}", inp.name, p.signature()));
+                digest_lines.insert(inp.name.clone(), format!("PANIC:{}", p.signature()));
+                chk.refs.push(None);
+            }
+        }
+    }
+    let usable: Vec<usize> = (0..inputs.len()).filter(|i| chk.refs[*i].is_some()).collect();
+    let heavy: Vec<usize> = usable.iter().copied().filter(|i| chk.refs[*i].as_ref().unwrap().nontrivial).collect();
+    ctx.extra.insert("inputs".into(), json!(input_table));
+    ctx.extra.insert("n_inputs_usable".into(), json!(usable.len()));
+    if usable.is_empty() {
+        ctx.inconclusive("no usable input");
+        return;
+    }
+
+    phase_t.push(("reference".into(), ctx.elapsed_s()));
+    // ---------------- phase 1: repetition (fresh RandomState in every HashMap)
+    let reps = ctx.tier.pick(2, 4);
+    for rep in 0..reps {
+        for &i in &usable {
+            let inp = &inputs[i];
+            let label = || format!("repeat {}", inp.name);
+            if let Ok(run) = ctx.run_case(&label, None, &|| compile(inp)) {
+                chk.check(ctx, &inputs, i, &run, "repeat", rep as u64);
+            }
+        }
+    }
+
+    phase_t.push(("repeat".into(), ctx.elapsed_s()));
+    // ---------------- phase 2: histories of k unrelated compilations
+    for (ki, k) in [0usize, 1, 7, 1000].into_iter().enumerate() {
+        // for k = 1000 each shard takes a different slice of the inputs
+        let targets: Vec<usize> = if k >= 1000 {
+            let per = ctx.tier.pick(10, 40);
+            (0..per).map(|j| usable[(ctx.shard.0 * per + j + rng.usize(usable.len())) % usable.len()]).collect()
+        } else {
+            usable.clone()
+        };
+        for &i in &targets {
+            let mut hist_ok = 0u64;
+            for h in 0..k {
+                // unrelated work: fillers mostly, sometimes another canonical input
+                let r = if k < 1000 && rng.chance(1, 3) {
+                    let j = *rng.pick(&usable);
+                    compile(&inputs[j])
+                } else {
+                    compile(&fillers[(h + i) % fillers.len()])
+                };
+                if matches!(r.out, Out::Bytes(_)) {
+                    hist_ok += 1;
+                }
+            }
+            ctx.count("history_compilations", hist_ok);
+            let inp = &inputs[i];
+            let label = || format!("history k={} {}", k, inp.name);
+            if let Ok(run) = ctx.run_case(&label, None, &|| compile(inp)) {
+                chk.check(ctx, &inputs, i, &run, &format!("history-k{}", k), ki as u64);
+            }
+        }
+    }
+
+    phase_t.push(("histories".into(), ctx.elapsed_s()));
+    // ---------------- phase 3: counter jumps between compilations (low range)
+    let low_bits = [16u32, 24, 31, 32, 33];
+    let rounds = ctx.tier.pick(1, 3);
+    for round in 0..rounds {
+        for &i in &usable {
+            let objects = chk.refs[i].as_ref().unwrap().objects;
+            let inp = &inputs[i];
+            let (sched, boundary) = if objects >= 3 && rng.chance(2, 3) {
+                let bits = *rng.pick(&low_bits);
+                let b = jump_before_boundary(bits, objects, &mut rng);
+                (format!("straddle-2^{}", bits), Some(b))
+            } else {
+                let n = random_jump(&mut rng, 30);
+                ctx.label("jump_parity", if n % 2 == 0 { "even" } else { "odd" });
+                ("random-jump".to_string(), None)
+            };
+            let label = || format!("{} {}", sched, inp.name);
+            if let Ok(run) = ctx.run_case(&label, None, &|| compile(inp)) {
+                if let Some(b) = boundary {
+                    if run.start < b && b <= run.end {
+                        ctx.count("boundary_straddled", 1);
+                        ctx.count(&format!("boundary_straddled:{}", sched), 1);
+                    } else {
+                        ctx.count("boundary_not_straddled", 1);
+                    }
+                }
+                chk.check(ctx, &inputs, i, &run, &sched, round as u64);
+            }
+        }
+    }
+
+    phase_t.push(("jumps-low".into(), ctx.elapsed_s()));
+    // ---------------- phase 4: threads
+    let sidecar_bumps = AtomicU64::new(0);
+    let n_rounds = ctx.tier.pick(60, 400);
+    // light inputs for most rounds, heavy ones regularly
+    let mut by_cost: Vec<usize> = usable.clone();
+    by_cost.sort_by_key(|i| chk.refs[*i].as_ref().unwrap().bytes.len());
+    let light: Vec<usize> = by_cost[..(by_cost.len() * 3 / 4).max(1)].to_vec();
+    for round in 0..n_rounds {
+        let kind = round % 4; // 0: same light, 1: mixed, 2: same heavy, 3: mixed with sidecar
+        let with_sidecar = kind == 3 || round % 8 == 2;
+        let plans: Vec<ThreadPlan> = match kind {
+            0 | 2 => {
+                let pool = if kind == 2 && !heavy.is_empty() { &heavy } else { &light };
+                let i = *rng.pick(pool);
+                let reps = if chk.refs[i].as_ref().unwrap().bytes.len() > 200_000 { 1 } else { 2 };
+                (0..N_THREADS)
+                    .map(|_| ThreadPlan {
+                        input: i,
+                        yields: rng.below(8) as u32,
+                        reps,
+                    })
+                    .collect()
+            }
+            _ => (0..N_THREADS)
+                .map(|t| {
+                    let pool = if t % 4 == 0 && !heavy.is_empty() { &heavy } else { &light };
+                    ThreadPlan {
+                        input: *rng.pick(pool),
+                        yields: rng.below(8) as u32,
+                        reps: 1 + rng.below(2) as u32,
+                    }
+                })
+                .collect(),
+        };
+        let sched = match (kind, with_sidecar) {
+            (0, false) | (2, false) => "threads-same-value",
+            (0, true) | (2, true) => "threads-same-value+sidecar-jumps",
+            (_, false) => "threads-mixed-values",
+            (_, true) => "threads-mixed-values+sidecar-jumps",
+        };
+        let sseed = if with_sidecar { Some(rng.u64()) } else { None };
+        let label = || format!("{} round {}", sched, round);
+        let inputs_ref = &inputs;
+        let plans_ref = &plans;
+        let sb = &sidecar_bumps;
+        let res = ctx.run_case(&label, None, &|| thread_round(inputs_ref, plans_ref, sseed, sb));
+        let Ok(res) = res else {
+            ctx.inconclusive("harness panic in a thread round");
+            continue;
+        };
+        ctx.count("thread_rounds", 1);
+        // interleaving signature: order of the first ids + who saw foreign ids
+        let mut order: Vec<(u64, usize)> = res.iter().enumerate().filter_map(|(t, r)| r.first().map(|x| (x.start, t))).collect();
+        order.sort();
+        let mut sig = Digest::new();
+        for (_, t) in &order {
+            sig.u64(*t as u64);
+        }
+        let mut overlapped = 0u64;
+        for (t, runs) in res.iter().enumerate() {
+            if runs.is_empty() {
+                ctx.inconclusive("a worker thread died outside the panic guard");
+            }
+            for run in runs {
+                let objects = chk.refs[plans[t].input].as_ref().unwrap().objects;
+                let foreign = run.end.wrapping_sub(run.start) > objects;
+                sig.u64(foreign as u64);
+                overlapped += foreign as u64;
+                chk.check(ctx, &inputs, plans[t].input, run, sched, round as u64 * 64 + t as u64);
+            }
+        }
+        ctx.distinct("interleaving_signatures", sig.finish());
+        if overlapped > 0 {
+            ctx.count("thread_rounds_with_interleaved_id_ranges", 1);
+        }
+    }
+    ctx.count("sidecar_jumps_during_compilations", sidecar_bumps.load(Ordering::Relaxed));
+
+    phase_t.push(("threads".into(), ctx.elapsed_s()));
+    // ---------------- phase 5: high id range, 2^63
+    let high_bits = [40u32, 48, 53, 56];
+    let mut n56 = 0;
+    let per = ctx.tier.pick(24, 96);
+    for j in 0..per {
+        let i = usable[(ctx.shard.0 * 7 + j * 5 + rng.usize(usable.len())) % usable.len()];
+        let objects = chk.refs[i].as_ref().unwrap().objects;
+        if objects < 3 {
+            continue;
+        }
+        let mut bits = *rng.pick(&high_bits);
+        if bits == 56 {
+            n56 += 1;
+            if n56 > 8 {
+                bits = 48;
+            }
+        }
+        let b = jump_before_boundary(bits, objects, &mut rng);
+        let sched = format!("straddle-2^{}", bits);
+        let inp = &inputs[i];
+        let label = || format!("{} {}", sched, inp.name);
+        if let Ok(run) = ctx.run_case(&label, None, &|| compile(inp)) {
+            if run.start < b && b <= run.end {
+                ctx.count("boundary_straddled", 1);
+                ctx.count(&format!("boundary_straddled:{}", sched), 1);
+            } else {
+                ctx.count("boundary_not_straddled", 1);
+            }
+            chk.check(ctx, &inputs, i, &run, &sched, j as u64);
+        }
+        random_jump(&mut rng, 44);
+    }
+    // the sign bit: exactly one compilation per process can straddle 2^63;
+    // which input does depends on the shard
+    let cur = hooks::object_counter();
+    if cur < (1u64 << 62) {
+        let cands: Vec<usize> = if heavy.is_empty() { usable.clone() } else { heavy.clone() };
+        let i = cands[(ctx.shard.0 * 3 + ctx.is_strict() as usize + (ctx.seed as usize % 97)) % cands.len()];
+        let objects = chk.refs[i].as_ref().unwrap().objects;
+        let b = jump_before_boundary(63, objects.max(3), &mut rng);
+        let inp = &inputs[i];
+        let label = || format!("straddle-2^63 {}", inp.name);
+        if let Ok(run) = ctx.run_case(&label, None, &|| compile(inp)) {
+            if run.start < b && b <= run.end {
+                ctx.count("boundary_straddled", 1);
+                ctx.count("boundary_straddled:straddle-2^63", 1);
+                ctx.label("straddled_2^63_with", &inp.name);
+            } else {
+                ctx.count("boundary_not_straddled", 1);
+            }
+            chk.check(ctx, &inputs, i, &run, "straddle-2^63", 0);
+        }
+        // above 2^63: sequential and threaded
+        for j in 0..ctx.tier.pick(12, 48) {
+            let i = usable[(j * 11 + ctx.shard.0) % usable.len()];
+            random_jump(&mut rng, 40);
+            let inp = &inputs[i];
+            let label = || format!("above-2^63 {}", inp.name);
+            if let Ok(run) = ctx.run_case(&label, None, &|| compile(inp)) {
+                chk.check(ctx, &inputs, i, &run, "above-2^63", j as u64);
+            }
+        }
+        for round in 0..ctx.tier.pick(4, 16) {
+            let plans: Vec<ThreadPlan> = (0..N_THREADS)
+                .map(|_| ThreadPlan {
+                    input: *rng.pick(&light),
+                    yields: rng.below(8) as u32,
+                    reps: 1,
+                })
+                .collect();
+            let sseed = Some(rng.u64());
+            let label = || format!("threads above 2^63 round {}", round);
+            let (inputs_ref, plans_ref, sb) = (&inputs, &plans, &sidecar_bumps);
+            if let Ok(res) = ctx.run_case(&label, None, &|| thread_round(inputs_ref, plans_ref, sseed, sb)) {
+                ctx.count("thread_rounds", 1);
+                for (t, runs) in res.iter().enumerate() {
+                    for run in runs {
+                        chk.check(ctx, &inputs, plans[t].input, run, "threads-above-2^63+sidecar-jumps", round as u64 * 64 + t as u64);
+                    }
+                }
+            }
+        }
+    } else {
+        ctx.inconclusive("object counter unexpectedly high before the 2^63 phase");
+    }
+    ctx.extra.insert("last_object_id_of_process".into(), json!(format!("{:#x}", hooks::object_counter())));
+
+    phase_t.push(("high-ids".into(), ctx.elapsed_s()));
+    ctx.extra.insert("phase_end_s".into(), json!(phase_t));
+    // ---------------- cross-process comparison
+    write_and_compare_digests(ctx, args, &digest_lines);
 }
